@@ -102,12 +102,17 @@ def build_harness(bins=("verifrun",)):
     ok, txt = True, ""
     for b in bins:
         out = os.path.join(BIN, b)
-        try:
-            os.remove(out)  # never run a stale binary
-        except OSError:
-            pass
-        rc, so, se = run(["go", "build", "-tags", "verif", "-overlay", ov, "-o", out, "./cmd/" + b],
+        tmp = out + ".new.%d" % os.getpid()
+        rc, so, se = run(["go", "build", "-tags", "verif", "-overlay", ov, "-o", tmp, "./cmd/" + b],
                          cwd=REPO, env=GOENV, timeout=1500)
+        if rc == 0:
+            os.replace(tmp, out)  # atomic: a concurrently running workload keeps its inode
+        else:
+            for f in (tmp, out):  # never run a stale binary
+                try:
+                    os.remove(f)
+                except OSError:
+                    pass
         ok = ok and rc == 0
         txt += so + se
     return ok, txt
